@@ -266,6 +266,7 @@ type result struct {
 	Timers   []clockCall
 	Tickers  []clockCall
 	Reads    []*big.Int // nil = C was empty
+	ReadAt   []*big.Int // clock reading at each read of C
 	Flushes  []flushObs
 	Monitors []string
 }
@@ -316,6 +317,7 @@ func runCase(in input) result {
 			settle(fl)
 		case "C":
 			if !fl {
+				res.ReadAt = append(res.ReadAt, absNS(clk.Mock.Now()))
 				select {
 				case v := <-ch:
 					res.Reads = append(res.Reads, absNS(v))
@@ -397,9 +399,12 @@ func directChecks(in input, start *big.Int, res result) (mon []string) {
 		}
 	}
 	var prev *big.Int
-	for _, v := range res.Reads {
+	for k, v := range res.Reads {
 		if v == nil {
 			continue
+		}
+		if k < len(res.ReadAt) && v.Cmp(res.ReadAt[k]) > 0 {
+			mon = append(mon, fmt.Sprintf("tick %s was delivered before the clock reached it (clock %s)", v, res.ReadAt[k]))
 		}
 		if !onBoundary(v) {
 			mon = append(mon, fmt.Sprintf("tick %s is not on a boundary", v))
